@@ -137,7 +137,7 @@ Section WithOpts.
     after_tab : bool;
     lvl_hack : bool;          (* CT_BRACE_CLOSE, CT_CASE_COLON (or preproc): lvlcol = column *)
     is_pp_define : bool;
-    is_string : bool;         (* CT_STRING: written as literal *)
+    is_string : bool;         (* CT_STRING or CT_STRING_MULTI: written as literal *)
     is_string_multi : bool;   (* CT_STRING_MULTI: output_trailspace *)
     is_pp_ignore : bool;
     is_comment_kind : bool;   (* IsComment() of a chunk that reaches the generic branch: never in practice *)
